@@ -306,8 +306,9 @@ def run(chk):
                 chk.finding("handshake", {"monitor": "model-mismatch", "variant": c["variant"]["name"], "mut": c["mut"],
                                           "schedule": c.get("sched", "")},
                             "who reports success (or, for a rewrite outside the transcript, a negotiated parameter) differs from "
-                            "the symbolic model Hs/C04Run.v [%s / %s]: client=%s server=%s params %s" % (
-                                c["variant"]["name"], c["mut"], c["cres"], c["sres"], json.dumps(param_diffs(c))),
+                            "the symbolic model Hs/C04Run.v [C04_ONLY=%s:%s%s]: client=%s server=%s params %s" % (
+                                c["variant"]["name"], c["mut"], ":split" if c.get("sched") == "split" else ":plain",
+                                c["cres"], c["sres"], json.dumps(param_diffs(c))),
                             {"case": c, "term": terms[j], "effect": e, "correspondence": "Hs.C04Run.c04_ok"},
                             no_input=not (viol or found))
         bad2, err2 = vlib.coq_mismatches("c04m", IMPORTS, "c04_case", "c04_not_violating", terms, shard=300)
@@ -370,4 +371,8 @@ def run(chk):
                      "schedule exercises re-entry of the flight parsers with partial flights on the implementation and is "
                      "predicted like the unsplit run. Small-MTU runs are not a separate dimension: the rewriter leaves "
                      "fragmented messages alone, and 'split' already yields one record per datagram",
+                     "reproducibility: connection IDs are a function of VERIF_SEED, variant and side (C04_CID=<8 hex digits> forces a "
+                     "value) and the record parser of the rewriter / splitter is given the connection-ID length of the variant (a "
+                     "tls12_cid header does not carry it); certificates are fixed; hello randoms, ephemeral keys and signature nonces "
+                     "come from the library's crypto/rand and are not observed",
                      "encrypted messages (Finished, all DTLS 1.3 messages after ServerHello) are not rewritten: C05/C20"])
